@@ -134,6 +134,7 @@ type csObs struct {
 	hijRead      []byte
 	hijReturned  atomic.Bool
 	problems     []string
+	inconclusive bool     // a server timeout fired before the client had written all its batches
 	stateConn    net.Conn // connection value of the first ConnState callback
 	connIdentity []string // callbacks that came with another connection value
 	srvCloses    int      // Close calls the server made on its side of the connection
@@ -178,6 +179,20 @@ func csRespConn(h *ResponseHeader) string {
 
 // csRun replays one behaviour and returns the observations.
 func csRun(b *csBeh) *csObs {
+	// Scenarios with a silent client run the server with real (short) timeouts.  If the machine
+	// is so slow that such a timeout fires while the client is still about to write its next
+	// batch, the execution says nothing about the scenario: it is repeated with longer timeouts.
+	var o *csObs
+	for _, scale := range []int{1, 6, 30} {
+		o = csRunScaled(b, scale)
+		if !o.inconclusive {
+			break
+		}
+	}
+	return o
+}
+
+func csRunScaled(b *csBeh, scale int) *csObs {
 	o := &csObs{}
 	var flat []csReq
 	for _, bt := range b.Batches {
@@ -192,8 +207,8 @@ func csRun(b *csBeh) *csObs {
 		KeepHijackedConns:  b.Cfg.KeepHij,
 		Logger:             csNopLogger{},
 		MaxConnsPerIP:      map[bool]int{false: 0, true: 2}[b.Cfg.PerIP],
-		ReadTimeout:        csTimeout(b),
-		IdleTimeout:        csTimeout(b),
+		ReadTimeout:        csTimeout(b) * time.Duration(scale),
+		IdleTimeout:        csTimeout(b) * time.Duration(scale),
 		ConnState: func(c net.Conn, st ConnState) {
 			if _, ok := c.(*csDisturbConn); ok {
 				return // unrelated traffic generated by csDisturb
@@ -329,6 +344,9 @@ outer:
 		}
 		o.addLog(fmt.Sprintf("w%d", k+1))
 		if _, err := cli.Write(buf); err != nil {
+			if csTimeout(b) > 0 && k > 0 {
+				o.inconclusive = true // the idle timeout beat the client to it
+			}
 			o.problems = append(o.problems, fmt.Sprintf("client write of batch %d failed: %v", k+1, err))
 			closedSeen = true
 			break
